@@ -228,6 +228,11 @@ class Executor(object):
         """(funcobj, ast node, module) for a repository function; cross-checks reflection vs AST"""
         path = os.path.join(self.repo_root, relfile)
         modname = relfile[:-3].replace("/", ".")
+        if relfile.startswith("@verif/"):
+            # a ghost client (scenario): code of /verif that only CALLS repository functions; it is verified against
+            # their contracts like any caller (the property-level lemma is its postcondition)
+            path = os.path.join(os.path.dirname(os.path.dirname(os.path.abspath(__file__))), relfile[7:])
+            modname = relfile[7:-3].replace("/", ".")
         if modname.endswith(".__init__"):
             modname = modname[:-9]
         mod = sys.modules.get(modname) or __import__(modname, fromlist=["*"])
@@ -644,6 +649,8 @@ class Executor(object):
 
     def check_frame(self, st, pre, beh, lab, modifies_override):
         modifies = beh.modifies if modifies_override is None else modifies_override
+        if "**" in modifies:
+            return              # a ghost client (scenario): its frame is of no interest, only its postcondition
         allowed = set()
         for m in modifies:
             allowed.update(self.resolve_location(pre, m))
@@ -860,7 +867,9 @@ class Executor(object):
                 outs = nxt
             return outs
         if isinstance(v, SVal):
-            # unpacking a dynamic value: a tuple of exactly n items, else TypeError/ValueError
+            # unpacking a dynamic (plain) value: a tuple of exactly n items; or another plain iterable of exactly n items -
+            # bytes (into ints), text (into 1-character texts), a frozenset (its items in its iteration order);
+            # anything else: TypeError / ValueError.  ONE path for all the shapes that unpack (the items are defined by cases).
             res = []
             z = v.z
             items = Val.titems(z)
@@ -868,15 +877,29 @@ class Executor(object):
             spine = VL.nil
             for x in reversed(elems):
                 spine = VL.cons(x, spine)
-            shape = [Val.is_VTuple(z)]
-            c2 = items
-            for i in range(n):
-                shape.append(VL.is_cons(c2))
-                c2 = VL.tl(c2)
-            shape.append(c2 == VL.nil)
-            ok = z3.And(shape)
+
+            def exactly(c):
+                sh = []
+                for i in range(n):
+                    sh.append(VL.is_cons(c))
+                    c = VL.tl(c)
+                sh.append(c == VL.nil)
+                return z3.And(sh)
+            by, tx = Val.vby(z), Val.vs(z)
+            order = self.spec.uf["order_of"](Val.fitems(z))
+            is_t = z3.And(Val.is_VTuple(z), exactly(items))
+            is_b = z3.And(Val.is_VBytes(z), z3.Length(by) == n)
+            is_s = z3.And(Val.is_VStr(z), z3.Length(tx) == n)
+            is_f = z3.And(Val.is_VFset(z), exactly(order))
+            ok = z3.Or(is_t, is_b, is_s, is_f)
             good = st.fork().assume(ok).label("L%d:unpack%d" % (self.rel_line(target), n))
-            good.assume(items == spine)
+            good.assume(z3.Implies(is_t, items == spine))
+            good.assume(z3.Implies(is_f, order == spine))
+            for i in range(n):
+                good.assume(z3.Implies(is_b, z3.And(elems[i] == Val.VInt(by[i]), by[i] >= 0, by[i] < 256)))
+                good.assume(z3.Implies(is_s, elems[i] == Val.VStr(z3.Unit(tx[i]))))
+            for fact in self.spec.perm_facts(self, good, SVL(order), SVL(Val.fitems(z))):
+                good.assume(z3.Implies(is_f, fact))
             # element-wise predicates of the item list, unfolded along the now explicit spine
             for fact in self.spec.spine_facts(self, good, SVL(spine)):
                 good.assume(fact)
@@ -941,7 +964,7 @@ class Executor(object):
             # the contract asks for branch pruning by the solver (paths the precondition excludes contain constructs
             # outside the subset): a path is dropped only on `unsat`
             s = z3.Solver()
-            s.set("timeout", 1000)
+            s.set("timeout", int(os.environ.get("PYVC_PRUNE_MS", "150")))
             for h in st.pc:
                 s.add(h)
             if s.check() == z3.unsat:
